@@ -709,3 +709,17 @@ package exec
 //@   panics_if typeNumOut(typ) - typePrefix(typ) != 1 || n&(n-1) != 0
 //@   ensures  table: cfOK(c) && c.cap == n && c.scratch.len == nscratch && c.len == 0 && c.vcol == typeNumOut(typ) - 1 && fresh(c)
 //@   modifies ColMem, colClock
+
+// ---- C16/C08: compiling a transported invocation on a worker ----
+
+// Every invocationRef among the arguments is replaced by the worker-local result of the referenced invocation
+// (compiled earlier on this worker) before the Func is invoked; a dangling reference is an error and nothing is
+// compiled or stored; every task reachable from the compiled roots is filed under its name, with its statistics.
+//@ func exec.(*worker).Compile$2 () (err)
+//@   requires w != nil && w.slices != nil && w.tasks != nil && w.taskStats != nil && inv.Env.Cached != nil
+//@   may_panic
+//@   ensures  dangling-reference-is-an-error: implies(old(exists(i, 0, len(inv.Args), hastype(inv.Args[i], invocationRef) && !has(w.slices, unbox(inv.Args[i], invocationRef).Index))), err != nil)
+//@   ensures  stored-on-success: implies(err == nil, has(w.tasks, inv.Index) && has(w.taskStats, inv.Index) && has(w.slices, inv.Index))
+//@   modifies unknown
+//@   loop 1 invariant w.slices != nil && w.tasks != nil && w.taskStats != nil && forall(k, uint64, has(w.slices, k) == old(has(w.slices, k)) && w.slices[k] == old(w.slices[k])) && has(w.tasks, inv.Index) == old(has(w.tasks, inv.Index))
+//@   loop 1 invariant refs-resolved: forall(i, 0, range_idx, ite(hastype(old(inv.Args[i]), invocationRef), has(w.slices, unbox(old(inv.Args[i]), invocationRef).Index) && inv.Args[i] == w.slices[unbox(old(inv.Args[i]), invocationRef).Index], inv.Args[i] == old(inv.Args[i]))) && forall(i, range_idx, len(inv.Args), inv.Args[i] == old(inv.Args[i]))
